@@ -212,6 +212,11 @@ impl Builtin for Times {
     // even worse than NPlusKPatterns maybe (TODO there's like paired divmod stuff right)
     fn destructure(&self, rvalue: Obj, lhs: Vec<Option<Obj>>) -> NRes<Vec<Obj>> {
         match (rvalue, few2(lhs)) {
+            (Obj::Num(_), Few2::Two(Some(Obj::Num(a)), None) | Few2::Two(None, Some(Obj::Num(a))))
+                if !a.is_nonzero() =>
+            {
+                Err(NErr::value_error("* can't destructure a product with zero".to_string()))
+            }
             (Obj::Num(r), Few2::Two(Some(Obj::Num(a)), None)) => {
                 if (&r % &a).is_nonzero() {
                     Err(NErr::value_error("* had remainder".to_string()))
